@@ -160,6 +160,18 @@ CLAIMS = {
              "members (pinned by the repository's own test).",
         technique="finite tables from the AST + real re; VCs (pyvc mode F) with fold specifications; generated programs as bounded stand-in",
         design="3/C04"),
+    "C12": dict(
+        text="Filter layer: the prefix filter of serve_autocomplete.get_candidates (VCs on a mechanical slice of the real "
+             "nested function, loop invariant with fold specification) keeps exactly the candidates whose renamed or own "
+             "lower-cased name starts with the prefix, with the rename list kept aligned; Scope.get_children(public_only) "
+             "returns exactly the children not private in the scope (VCs); the context table (USE -> modules, ONLY -> public "
+             "members, CALL -> callable, TYPE( -> types, object% -> its type's members without globals) and the inclusion of "
+             "inherited members are structural obligations. Completion probes on a three-file program are the bounded "
+             "stand-in.",
+        note="Candidate generation through the USE tree (ONLY/rename merge) and the statement-context classifier are not "
+             "decided (C05's layer); the slice drops the part of get_candidates that collects candidates.",
+        technique="VCs (pyvc mode F) on a mechanical slice + fold specifications; structural context table; native probes as bounded stand-in",
+        design="3/C12"),
 }
 
 NOT_APPLICABLE = {
